@@ -28,7 +28,7 @@ LEVEL = "exploration"
 def sub_session(spec, hashseed):
     env = dict(os.environ)
     env["PYTHONHASHSEED"] = str(hashseed)
-    env["PYTHONPATH"] = VERIF + ":/repo"
+    env["PYTHONPATH"] = VERIF + ":" + os.environ.get("VERIF_REPO", "/repo")
     p = subprocess.run(["/venv/bin/python", "-W", "ignore", "-m", "drivers.c08_worker", json.dumps(spec)], cwd=VERIF, env=env,
                        stdout=subprocess.PIPE, stderr=subprocess.PIPE, text=True, timeout=900)
     for line in p.stdout.splitlines():
